@@ -102,9 +102,39 @@ def entry_loops(func):
     return loops
 
 
+LIST_MUTATORS = {"append", "extend", "insert", "remove", "pop", "sort", "reverse", "clear"}
+
+
+def _inplace(prog, func, concrete, _seen=None):
+    """self attributes a method (transitively via self-calls) changes in place."""
+    _seen = _seen if _seen is not None else set()
+    if (func, concrete) in _seen:
+        return set()
+    _seen.add((func, concrete))
+    out = set()
+    for n in ast.walk(func.node):
+        if isinstance(n, ast.Call) and isinstance(n.func, ast.Attribute):
+            if n.func.attr in LIST_MUTATORS and (dotted(n.func.value) or "").startswith("self."):
+                out.add(dotted(n.func.value))
+            rd = dotted(n.func.value)
+            callee = None
+            if rd == "self":
+                callee = prog.resolve_method(concrete, n.func.attr)
+            elif rd == "super()" and func.cls is not None:
+                callee = prog.resolve_method(concrete, n.func.attr, after=func.cls)
+            if callee is not None:
+                out |= _inplace(prog, callee, concrete, _seen)
+        if isinstance(n, ast.Delete):
+            for t in n.targets:
+                if isinstance(t, ast.Subscript) and (dotted(t.value) or "").startswith("self."):
+                    out.add(dotted(t.value))
+    return out
+
+
 def check(ctx, rep):
     prog = ctx.prog
     eff = Effects(prog, ctx.resolver)
+    rep.rule("R12d", "a loop over the handler's entry collection does not change that collection (directly or through a hook): no entry is skipped", floor=2)
     rep.rule("R12a", "calls that may raise FileNotFound/OSError inside a per-entry loop are caught inside the loop body and the loop continues", floor=3)
     rep.rule("R12c", "every open() for reading on a name from the content tree is preceded by regular-file evidence (isfile() of the path, or S_ISREG of the stat result for the handler's own selector)", floor=6)
     rep.rule("R12b", "the stat before handler selection is absorbed; no handler test subscripts a missing stat result", floor=8)
@@ -161,6 +191,47 @@ def check(ctx, rep):
                                  f"name rejected by the security filter) and nothing inside the loop catches it: the whole listing fails")
                                 if problems else f"may raise {sorted(excs)}: contained per entry",
                                 key=f"R12a|{C.name}|{m.qualname}|{norm(call.func)}")
+
+    # ------------------------------------------------------------------ R12d
+    seen_loops = set()
+    for C in prog.subclasses(dirbase):
+        for c in prog.mro(C):
+            for m in c.methods.values():
+                if prog.resolve_method(C, m.name) is not m:
+                    continue
+                for loop in entry_loops(m):
+                    if not isinstance(loop, ast.For):
+                        continue
+                    it = loop.iter
+                    if isinstance(it, ast.Call) and (dotted(it.func) or "") in ("enumerate", "reversed", "iter") and it.args:
+                        it = it.args[0]
+                    coll = dotted(it) if isinstance(it, ast.Attribute) else None
+                    if coll is None or not coll.startswith("self."):
+                        continue
+                    hits = []
+                    for st_ in loop.body:
+                        for n in ast.walk(st_):
+                            if isinstance(n, ast.Call) and isinstance(n.func, ast.Attribute):
+                                if n.func.attr in LIST_MUTATORS and dotted(n.func.value) == coll:
+                                    hits.append((n, norm(n)[:40]))
+                                rd = dotted(n.func.value)
+                                callee = None
+                                if rd == "self":
+                                    callee = prog.resolve_method(C, n.func.attr)
+                                elif rd == "super()" and m.cls is not None:
+                                    callee = prog.resolve_method(C, n.func.attr, after=m.cls)
+                                if callee is not None and coll in _inplace(prog, callee, C):
+                                    hits.append((n, f"{norm(n)[:40]} (changes {coll})"))
+                            if isinstance(n, ast.Delete) and any(isinstance(t, ast.Subscript) and dotted(t.value) == coll for t in n.targets):
+                                hits.append((n, norm(n)[:40]))
+                    key = (m.qualname, loop.lineno, C.name if hits else None)
+                    if key in seen_loops:
+                        continue
+                    seen_loops.add(key)
+                    rep.add("R12d", f"{C.name}: {m.qualname}: loop over {coll} does not change {coll}", not hits, ctx.where(m, hits[0][0] if hits else loop),
+                            f"`{hits[0][1]}` changes the list while it is being walked: the entry after the one handled there is skipped "
+                            "(a listing loses a servable entry next to an unservable one)" if hits else "",
+                            key=f"R12d|{C.name}|{m.qualname}|{coll}")
 
     # ------------------------------------------------------------------ R12b
     gh = ctx.func("handlers.HandlerMultiplexer.getHandler")
